@@ -91,7 +91,7 @@ theorem mem_backend_iff (v : Variant) (prog : Program) (sched : List Nat) (id bi
   · rintro ⟨⟨id', c', r'⟩, hm, hr⟩
     cases c' with
     | relay b e => simp [relayOut] at hr; obtain ⟨rfl, rfl, rfl⟩ := hr; exact ⟨e, hm⟩
-    | plain t => simp [relayOut] at hr
+    | plain t fl => simp [relayOut] at hr
     | chain t n => simp [relayOut] at hr
   · rintro ⟨e, hm⟩; exact ⟨_, hm, rfl⟩
 
